@@ -112,6 +112,12 @@ func fuzzInputs(target string, rng *rand.Rand, deep bool) [][]byte {
 			[]byte("?OTR|12345678|9abcdef0,00001,00001,?OTR|00,"), []byte("?OTR|12345678|00000000,00001,00001,?OTR|12345678|9abcdef0,"),
 			[]byte("?OTR,00001,00001,?OTR|00,"), []byte("?OTR,00001,00001,?OTR|12345678|9abcdef0,"), []byte("?OTR|12345678|00000000,00001,00001,?OTRv23?,"),
 			[]byte("?OTR,00001,00001,?OTR:AAMK,"), []byte("?OTR|12345678|00000000,00001,00001,,"), []byte("?OTR,00002,00002,x,"), []byte("?OTR|12345678|00000000,65535,65535,x,"))
+		// the first of very many announced pieces, each with a payload of some size: what is set aside for the
+		// pieces that have not come must not depend on the announcement
+		for _, n := range []int{300, 1000, 4000} {
+			pay := strings.Repeat("QUJD", n/4)
+			seeds = append(seeds, []byte("?OTR|12345678|00000000,00001,65535,"+pay+","), []byte("?OTR,00001,65535,"+pay+","), []byte("?OTR|12345678|00000000,00001,09999,"+pay+","))
+		}
 	}
 	for _, s := range seeds {
 		out = append(out, s)
